@@ -1,5 +1,5 @@
 -------------------------- MODULE AgentTorrentTrace --------------------------
-(* Trace validation of real agentstorage.Torrent writers held inside a gated PieceReader (C03). *)
+(* Trace validation of real agentstorage.Torrent writers held at the WritePiece gates and inside a gated PieceReader (C03). *)
 EXTENDS AgentTorrent, Json, TLC
 Trace == ndJsonDeserialize("trace.ndjson")
 VARIABLE l
@@ -12,12 +12,13 @@ ObsOK == /\ {i \in Pieces : R.bits[i]} = {i \in Pieces : pstate'[i] = "complete"
          /\ R.downloaded = Min(ncomplete' * PieceLen, Total)
 TReset  == IsEvent("reset") /\ pstate' = [i \in Pieces |-> "empty"] /\ region' = [i \in Pieces |-> "zero"]
            /\ ncomplete' = 0 /\ committed' = FALSE /\ wr' = [w \in Writers |-> Idle]
-TStart  == IsEvent("Start") /\ R.res = StartRes(R.i, R.c) /\ Start(R.w, R.i, R.c) /\ ObsOK
-\* the two writers that finish the last pieces may both try the move; the loser reports an error although its piece was accepted
-TFinish == IsEvent("Finish") /\ (R.res = FinishRes(R.w) \/ (R.res = "error" /\ committed /\ wr[R.w].c = "good")) /\ Finish(R.w) /\ ObsOK
+TCheck  == IsEvent("Check") /\ R.res = CheckRes(R.i, R.c) /\ Check(R.w, R.i, R.c) /\ ObsOK
+TTry    == IsEvent("TryDirty") /\ R.res = TryRes(R.w) /\ TryDirty(R.w) /\ ObsOK
+TWrite  == IsEvent("Write") /\ R.res = WriteRes(R.w) /\ Write(R.w) /\ ObsOK
+TCommit == IsEvent("Commit") /\ R.res \in CommitRes(R.w) /\ Commit(R.w) /\ ObsOK
 \* at the end the cached file is the blob iff the torrent committed, and nothing is cached otherwise
 TEnd    == IsEvent("End") /\ R.cached = committed /\ (committed => R.cachedok) /\ UNCHANGED vars
-TraceNext == TReset \/ TStart \/ TFinish \/ TEnd
+TraceNext == TReset \/ TCheck \/ TTry \/ TWrite \/ TCommit \/ TEnd
 TraceSpec == TraceInit /\ [][TraceNext]_tvars
 HW == TLCSet(1, IF TLCGet(1) < l THEN l ELSE TLCGet(1))
 TraceAccepted == IF TLCGet(1) = Len(Trace) + 1 THEN TRUE
